@@ -56,6 +56,9 @@ type (
 	ElemRef struct { // &base[idx]
 		Base AV
 		Idx  AV
+		// Origin: the address the slice value Base was loaded from right before it was indexed (`zs[i] = g`
+		// on a variable zs): a store through the element address updates the value held there
+		Origin AV
 	}
 	StructV struct { // struct value (immutable snapshot)
 		T      types.Type
@@ -1019,6 +1022,30 @@ func (in *Interp) store(st *State, addr, v AV, pos token.Pos) {
 				}
 			}
 		}
+		// an element of a slice value held by a variable: the variable now holds the updated slice. At a position
+		// that is not known the slice holds its former elements and v in an unknown arrangement (one of the
+		// former elements may be gone).
+		if sv, ok := a.Base.(SliceV); ok && a.Origin != nil {
+			elems := append([]AV(nil), sv.Elems...)
+			known := false
+			if i, ok := asInt(a.Idx); ok && i >= 0 && int(i) < len(elems) {
+				known = true
+				for _, e := range elems[:i+1] {
+					if _, sp := e.(Spread); sp {
+						known = false
+					}
+				}
+				if known {
+					elems[i] = v
+				}
+			}
+			if !known {
+				elems = []AV{Spread{V: Expr{Op: "mix", Args: append(elems, v)}}}
+			}
+			st.Events = append(st.Events, Event{Kind: "store", Target: addr.String(), Args: []AV{v}, Pos: pos, Stack: st.stackString()})
+			in.store(st, a.Origin, SliceV{Elems: elems}, pos)
+			return
+		}
 	}
 	// a store into a heap object through an address shape that is not modelled: what the object holds there is
 	// unknown from now on (never the stale value)
@@ -1180,7 +1207,13 @@ func (in *Interp) instrs(st *State, b, pred *ssa.BasicBlock, idx int, k kont) {
 				in.set(st, ins, Expr{Op: "field." + name, Args: []AV{x}})
 			}
 		case *ssa.IndexAddr:
-			in.set(st, ins, ElemRef{Base: in.val(st, ins.X), Idx: in.val(st, ins.Index)})
+			er := ElemRef{Base: in.val(st, ins.X), Idx: in.val(st, ins.Index)}
+			if ld, ok := ins.X.(*ssa.UnOp); ok && ld.Op == token.MUL {
+				if _, isSlice := er.Base.(SliceV); isSlice {
+					er.Origin = in.val(st, ld.X)
+				}
+			}
+			in.set(st, ins, er)
 		case *ssa.Index:
 			x := in.val(st, ins.X)
 			in.set(st, ins, in.load(st, ElemRef{Base: x, Idx: in.val(st, ins.Index)}, ins.Type(), ins.Pos()))
